@@ -573,3 +573,31 @@ def gen_special(r):
             h[k] = 0.0
     pts = [[0.0, 0.0], [h["crpix1"], h["crpix2"]], [1.0, 1.0], [0.0, 700.5], [-0.0, 3.0], [512.0, 512.0], [1024.0, 1024.0]]
     return h, "%s/special/inside" % kind, pts
+
+
+def gen_falsy(r, i):
+    """optional cards given EXPLICITLY at 'falsy' values (0, 0.0, -0.0) although the code's default for a missing card is
+    not zero, and at other non-default values: TPV with PVi_1 = 0 (axes-exchanged form PVi_2 ~ 1; sheared forms), explicit
+    zeros among non-zero coefficients (TPV and SIP), LONPOLE / LATPOLE explicitly 0.  -> (header, family, points)"""
+    z = [0.0, -0.0, 0][i % 3]
+    var = ["exchanged", "zero-linear-1", "zero-linear-2", "sip-zeros", "exchanged+lonpole0"][i % 5]
+    if var == "sip-zeros":
+        h = gen_header(r, "sip-noinv", r.choice(CRVAL_FAMILIES), "inside", nax=(1024, 1024))
+        ks = [k for k in h if k.split("_")[0] in ("a", "b") and not k.endswith("order")]
+        for k in ks[::2]:
+            h[k] = z
+        h["a_0_1"] = z                      # a card whose default is 0, given as 0
+    else:
+        h = gen_header(r, "tan", r.choice(CRVAL_FAMILIES), "inside", nax=r.choice([(1024, 1024), (512, 300)]))
+        h["ctype1"], h["ctype2"] = "RA---TPV", "DEC--TPV"
+        e = lambda s: r.uniform(-s, s)      # noqa
+        if var.startswith("exchanged"):
+            h.update(pv1_1=z, pv1_2=1 + e(0.02), pv2_1=z, pv2_2=1 + e(0.02), pv1_4=e(1e-2), pv2_6=e(1e-2), pv1_0=z, pv2_0=z)
+        elif var == "zero-linear-1":
+            h.update(pv1_1=z, pv1_2=r.uniform(0.7, 1.0), pv2_1=1 + e(0.02), pv2_2=r.uniform(0.5, 0.9), pv1_5=e(1e-2))
+        else:
+            h.update(pv1_1=1 + e(0.02), pv1_2=r.uniform(0.5, 0.9), pv2_1=z, pv2_2=r.uniform(0.7, 1.0), pv2_4=e(1e-2))
+        if var.endswith("lonpole0"):
+            h["longpole"] = [0.0, 0, -0.0][i % 3]
+            h["latpole"] = 0
+    return h, "%s/falsy-%s-%r/inside" % ("sip" if var == "sip-zeros" else "tpv", var, z), gen_points(r, h, 7)
